@@ -753,6 +753,33 @@ fn witness_deprecated_merge(out: &mut Out) {
     }
 }
 
+
+/// the coverage self-audit of C07 against the eleven classes (DESIGN.md §4 C07)
+fn audit() -> serde_json::Value {
+    json!([
+      {"class": 1, "topic": "entry path / variant never driven",
+       "covered": "every pub fn and trait impl (PartialEq, Ord, Default) of lattice.rs, crdt_value.rs, replicated_value.rs is enumerated from the source the binary was built against and accounted for (C07:coverage:fn-not-driven:*): the stand-alone merge of every lattice, try_merge / merge_with_timestamps / the deprecated merge, vector-clock comparison, LamportClock merge / update / tick / cmp, the mutators of counters and sets, set / delete / hash_set / hash_delete on values of every kind, every constructor, every accessor. Before: only ReplicatedValue::merge was called (59 % / 41 % of the lines of lattice.rs / crdt_value.rs never ran)",
+       "open": "the *_mut accessors are the same match as their shared twins; verify_invariants is empty in release builds"},
+      {"class": 2, "topic": "input alphabet",
+       "covered": "payloads empty / binary / random up to 40 bytes; set elements and hash fields incl. non-ASCII and the empty field name; zero entries in counters and vector clocks; tombstones with and without value; all six kinds in every operand position; values built through the public API, by local ops + delivery on real shards, structurally with colliding stamps, and by merging merges",
+       "open": ""},
+      {"class": 3, "topic": "comparison at equality",
+       "covered": "equal full stamps, equal times from different replicas, equal counts, equal / dominated / disjoint vector clocks, cmp on equal clocks, an element added twice, a removal of tags the set does not hold",
+       "open": ""},
+      {"class": 4, "topic": "configuration", "covered": "n/a: no function of the three files reads configuration", "open": ""},
+      {"class": 5, "topic": "capacity thresholds", "covered": "n/a: no internal limit",
+       "open": "u64 overflow of counter increments / totals and the `as i64` of PNCounter::value are outside the Nat model (listed assumption); the Lamport time's boundary is C08's (known finding C08:clock:u64-overflow)"},
+      {"class": 6, "topic": "fault kinds", "covered": "try_merge's Err (both type names compared); a mirror that cannot read a value back is a named case (…:mirror:shape-changed)", "open": "no I/O in scope"},
+      {"class": 7, "topic": "history shapes", "covered": "values reached by 5..30 local ops with reordered / duplicated / lost deliveries, nested merges fed back into the pool, removal-then-state-merge on OR-sets (counted: the element comes back)", "open": ""},
+      {"class": 8, "topic": "node-global state", "covered": "n/a (pure functions); next_sequence of an OR-set is carried through merges and compared", "open": ""},
+      {"class": 9, "topic": "observations",
+       "covered": "the full value (crdt, vector clock, expiry, stamp, rf) AND every public accessor of every operand and result (A lines: get, is_tombstone, crdt_type, is_lww, is_hash, lww, get_hash, hash_get, get_replica_count, value, is_empty, contains, len, get_tags, VectorClock::get, get_replication_factor); the three laws are evaluated on the values and once more through the accessors; Lean: obs_all_idem / comm / assoc_partial",
+       "open": ""},
+      {"class": 10, "topic": "finding signatures", "covered": "C07:assoc:cross-kind:crdt (kinds mixed, field 'crdt' differs) and C07:comm:deprecated-crdt-merge:cross-kind (only across kinds: the same-kind variant is a violation) are disjoint from every other failure of the laws", "open": ""},
+      {"class": 11, "topic": "harness fragility", "covered": "the function list comes from the source the binary was built against; a failed or implausibly short scan is a violation; a value the mirror cannot read is a named case, not a panic", "open": ""}
+    ])
+}
+
 pub fn run(a: &Args) {
     let mut out = Out::new(&a.out);
     let mut rng = Rng::new(a.seed);
@@ -799,5 +826,6 @@ pub fn run(a: &Args) {
             }
         }
     }
+    out.extra.insert("audit".into(), audit());
     out.finish("case = triple (a,b,c) of real ReplicatedValues drawn from (i) values produced by random local ops + random delta delivery on real ShardReplicaStates, (ii) structured random values with colliding stamps, (iii) counters/sets built through the CRDT API, (iv) merges of those; distinct by canonical text of the triple; non-trivial iff a != b and merge(a,b) differs from a or from b");
 }
